@@ -317,6 +317,9 @@ class Interp:
         if r[0] == "func":
             return ("func", r[1].qualname)
         if r[0] == "global":
+            v = r[1].globals.get(r[2])
+            if isinstance(v, ast.Constant) and isinstance(v.value, (str, int, float, bool, type(None))):
+                return const(v.value)
             return ("global", r[1].name, r[2])
         if r[0] == "module":
             return ("module", r[1])
@@ -656,10 +659,12 @@ class Interp:
         k = f[0]
         line = getattr(n, "lineno", None)
         if k == "cond":
-            # same call on either callee
-            a = self.apply(st, f[2], args, kwargs, n, tree)
-            b = self.apply(st, f[3], args, kwargs, n, tree)
-            return mk_cond(f[1], a, b)
+            # the callee is chosen by a condition: each alternative runs only under its branch
+            c = f[1]
+            va, sa, fa = self._branch(st, c, lambda s, t: self.apply(s, f[2], args, kwargs, n, t))
+            vb, sb, fb = self._branch(st, mk_not(c), lambda s, t: self.apply(s, f[3], args, kwargs, n, t))
+            self._absorb(st, c, fa, sa, tree, line, sb, fb)
+            return mk_cond(c, va, vb)
         if k == "bound":
             fi = self.facts.func(f[2])
             return self.call_function(st, fi, [f[1]] + args, kwargs, n, tree)
@@ -693,6 +698,8 @@ class Interp:
                 return self.new_list([("s", recv)], n) if not isinstance(o, HDict) else self.new_dict([("**", recv)], n, tree)
             if name == "format":
                 return ("call", ".format", (recv,) + tuple(args), tuple(sorted(kwargs.items())))
+            if name == "group" and len(args) > 1 and not kwargs:
+                return ("tuple", tuple(("call", ".group", (recv, a), ()) for a in args))
             tree.append(("mcall", name, recv, tuple(args), line))
             return ("call", "." + name, (recv,) + tuple(args), tuple(sorted(kwargs.items())))
         if k == "super" or k == "opaque":
@@ -847,6 +854,30 @@ class Interp:
                                     return self.new_dict([(e[0], e[1]) if e[0] == "**" else (e[0], ("dropnone", e[1])) for e in o.entries], n, tree)
                                 return ("call", "reject_nones", (d,), ())
                             return h
+        # loop form:  kept = {}; for k, v in X.items(): if v is not None: kept[k] = v; return kept
+        if len(b) == 3 and isinstance(b[0], (ast.Assign, ast.AnnAssign)) and isinstance(b[1], ast.For) and isinstance(b[2], ast.Return):
+            tgt = b[0].targets[0] if isinstance(b[0], ast.Assign) else b[0].target
+            val = b[0].value
+            empty = isinstance(val, ast.Dict) and not val.keys or (isinstance(val, ast.Call) and isinstance(val.func, ast.Name) and val.func.id == "dict" and not val.args and not val.keywords)
+            f = b[1]
+            it = f.iter
+            if isinstance(tgt, ast.Name) and empty and isinstance(b[2].value, ast.Name) and b[2].value.id == tgt.id \
+                    and isinstance(it, ast.Call) and isinstance(it.func, ast.Attribute) and it.func.attr == "items" and isinstance(it.func.value, ast.Name) \
+                    and it.func.value.id in fi.params() and isinstance(f.target, ast.Tuple) and len(f.target.elts) == 2 \
+                    and all(isinstance(e, ast.Name) for e in f.target.elts) and len(f.body) == 1 and isinstance(f.body[0], ast.If) and not f.orelse:
+                kn, vn = f.target.elts[0].id, f.target.elts[1].id
+                i = f.body[0]
+                if ast.unparse(i.test) == f"{vn} is not None" and not i.orelse and len(i.body) == 1 and isinstance(i.body[0], ast.Assign) \
+                        and ast.unparse(i.body[0]) == f"{tgt.id}[{kn}] = {vn}":
+                    pidx = fi.params().index(it.func.value.id)
+
+                    def h2(st, args, n, tree, pidx=pidx):
+                        d = args[pidx] if pidx < len(args) else ("opaque", "?")
+                        o = self.obj(d)
+                        if isinstance(o, HDict):
+                            return self.new_dict([(e[0], e[1]) if e[0] == "**" else (e[0], ("dropnone", e[1])) for e in o.entries], n, tree)
+                        return ("call", "reject_nones", (d,), ())
+                    return h2
         return None
 
     # -- statements ---------------------------------------------------------------------
@@ -1137,6 +1168,8 @@ class Interp:
             for nm in names:
                 if nm in end.env and end.env[nm] != ("phi", lid, nm):
                     info["carried"][nm] = end.env[nm]
+        if out.brk is not None:
+            info["break_env"] = {nm: out.brk.env[nm] for nm in sorted(self._assigned_names(s.body)) if nm in out.brk.env}
         tree.append(("loop", lid, sub))
         # state after the loop
         after = st
